@@ -113,7 +113,13 @@ def run_entry(entry, n, seed, acc, tier, rot=0):
         if charset == 'B' and dl[2] not in '!"&\'()*+,-./:;?=':
             # under the basic character set the component separator (data of ISA16) must be a basic character
             dl = (dl[0], dl[1], ch.choice([c for c in '!&+,/;?=' if c not in (dl[0], dl[1], dl[3])]), dl[3])
-        res = genfaulty.build(entry, ch, acc, avoid='~*:^' + ''.join(dl), flavor='punct', envelope=.2, malformed=.25, big=.35)
+        if entry['icvn'] == '00401' and charset == 'E' and ch.chance(.08):
+            # groups of different maps in one interchange
+            res = genfaulty.build_mixed(ch, acc, avoid='~*:^' + ''.join(dl), flavor='punct', envelope=.2, malformed=.25)
+            if res is not None and res[0].icvn != '00401':
+                res = None
+        else:
+            res = genfaulty.build(entry, ch, acc, avoid='~*:^' + ''.join(dl), flavor='punct', envelope=.2, malformed=.25, big=.35)
         if res is None:
             return {'skip': 'genfail'}
         doc, exps = res
